@@ -349,7 +349,9 @@ func c11Residue(c *Ctx, p *core.Prog) {
 	if n == 0 {
 		r.Fatal("anchor not found: no store of a context into Parser.ctx")
 	}
-	// NewAST … error return must pass ReleaseAST
+	// NewAST … error return must pass ReleaseAST (directly, or by a deferred release that is still armed)
+	ri := &releaseInfo{p: p, memo: map[*ssa.Function]map[int]int{}}
+	nfn := 0
 	for _, fn := range fns {
 		if fn.Parent() != nil {
 			continue
@@ -367,15 +369,34 @@ func c11Residue(c *Ctx, p *core.Prog) {
 		if newAST == nil {
 			continue
 		}
-		// blocks containing ReleaseAST(newAST)
+		nfn++
+		// the tree may live in a captured cell
+		var cell *ssa.Alloc
+		for _, ref := range core.Referrers(newAST) {
+			if st, ok := ref.(*ssa.Store); ok && st.Val == ssa.Value(newAST) {
+				cell, _ = st.Addr.(*ssa.Alloc)
+			}
+		}
+		isTree := func(v ssa.Value) bool {
+			if v == ssa.Value(newAST) {
+				return true
+			}
+			return cell != nil && cellOf(v) == cell
+		}
 		rel := map[*ssa.BasicBlock]bool{}
 		for _, b := range fn.Blocks {
 			for _, in := range b.Instrs {
 				if call, ok := in.(*ssa.Call); ok {
-					if callee := call.Call.StaticCallee(); callee != nil && callee.Name() == "ReleaseAST" && len(call.Call.Args) == 1 && call.Call.Args[0] == ssa.Value(newAST) {
+					if callee := call.Call.StaticCallee(); callee != nil && callee.Name() == "ReleaseAST" && len(call.Call.Args) == 1 && isTree(call.Call.Args[0]) {
 						rel[b] = true
 					}
 				}
+			}
+		}
+		var armed []deferredRelease
+		for _, dr := range deferredReleases(fn, ri) {
+			if cell != nil && dr.cell == cell {
+				armed = append(armed, dr)
 			}
 		}
 		k := 0
@@ -386,7 +407,8 @@ func c11Residue(c *Ctx, p *core.Prog) {
 			}
 			// error return = the AST result is nil
 			isErr := false
-			for _, rv := range ret.Results {
+			for i := range ret.Results {
+				rv := retOperand(ret, i)
 				if core.IsNilConst(rv) && !isErrorType(rv.Type()) {
 					isErr = true
 				}
@@ -396,12 +418,39 @@ func c11Residue(c *Ctx, p *core.Prog) {
 			}
 			k++
 			key := core.FnName(fn) + sprintf("|error-return#%d", k)
-			// every path from NewAST to this return passes a release block
-			if reachAvoiding(newAST.Block(), b, rel, nil) && !rel[b] && !rel[newAST.Block()] {
-				r.Violate("residue", key, p.Pos(ret.Pos()), "an error return after ast.NewAST() is reachable without ast.ReleaseAST(result): the pooled AST leaks")
-			} else {
+			released := !(reachAvoiding(newAST.Block(), b, rel, nil) && !rel[b] && !rel[newAST.Block()])
+			if !released {
+				// a deferred release covers this return if its guard cannot have been switched off on the way here
+				for _, dr := range armed {
+					if !dr.deferIn.Block().Dominates(b) {
+						continue
+					}
+					if dr.flag == nil {
+						released = true
+						continue
+					}
+					off := false
+					for _, st := range storesConst(fn, dr.flag, !dr.runsWhen) {
+						if core.BlockReaches(st.Block(), b) {
+							off = true
+						}
+					}
+					if !off {
+						released = true
+					}
+				}
+			}
+			if released {
 				r.OK("residue", key, p.Pos(ret.Pos()), "ReleaseAST on every path")
+			} else {
+				r.Violate("residue", key, p.Pos(ret.Pos()), "an error return after ast.NewAST() is reachable without ast.ReleaseAST(result): the pooled AST leaks")
 			}
 		}
+		if k == 0 {
+			r.Fatal("no error return found after ast.NewAST() in %s: the residue rule cannot see the function's results", core.FnName(fn))
+		}
+	}
+	if nfn < 3 {
+		r.Fatal("anchor not found: statement loops calling ast.NewAST() (found %d)", nfn)
 	}
 }
